@@ -19,6 +19,7 @@ type Tape struct {
 	pos    int
 	Out    []Entry
 	Replay bool
+	Idx    int // run index (record mode): lets a scenario enumerate a finite matrix instead of sampling it
 }
 
 type RNG struct{ s [4]uint64 }
@@ -110,6 +111,24 @@ func (t *Tape) Draw(site string, bound uint64) uint64 {
 	}
 	t.Out = append(t.Out, Entry{site, bound, v})
 	return v
+}
+
+// Enum returns idx mod n in record mode (systematic enumeration over run indices) and the taped value on replay.
+func (t *Tape) Enum(site string, n int) int {
+	if n <= 1 {
+		return 0
+	}
+	var v uint64
+	if t.Replay {
+		if t.pos < len(t.In) {
+			v = t.In[t.pos].Val % uint64(n)
+		}
+		t.pos++
+	} else {
+		v = uint64(t.Idx % n)
+	}
+	t.Out = append(t.Out, Entry{site, uint64(n - 1), v})
+	return int(v)
 }
 
 // Int returns a value in [lo, hi]; lo is the mild end.
